@@ -1,3 +1,419 @@
-(* SpecSound — see docs/ for the plan of this file. *)
+(* SpecSound — what the executable specification S (Spec.select) MEANS.
+   A declarative relation [Matches] ("this token list matches this request text
+   with these captured values"), a preference order on matches ([trace],
+   [trace_le]) and the theorem that [select] returns a match iff one exists and
+   then returns the most preferred one.  Plan and reading guide: docs/C01_spec.md *)
 From FoxBase Require Import Bytes.
-From FoxRoute Require Import Node Lookup Spec Tree.
+From FoxRoute Require Import Spec SpecFacts.
+Open Scope char_scope.
+Local Notation length := List.length.
+
+(* ------------------------------------------------------------------ *)
+(* 1. The declarative matching relation                                *)
+(* ------------------------------------------------------------------ *)
+
+Definition starts_with (c : ascii) (s : bytes) : Prop := exists r, s = c :: r.
+
+(* Matches ts s h vals: the token list ts consumes exactly the text s, of
+   which the first h bytes are the hostname, capturing vals (in pattern order).
+   - a static byte consumes itself; as in [select], a '{' or '*' of the REQUEST
+     is never matched by a static token (such bytes cannot be routed literally);
+   - {name} in the path (h = 0): a non-empty value without '/', maximal (followed
+     by '/' or by the end);
+   - {name} in the host (h <> 0): a non-empty value without '.', inside the host,
+     maximal (reaches the end of the host or is followed by '.');
+   - *{name} (path only): a non-empty value; followed by the end of the path, or by
+     a '/' and then it neither ends nor starts with '/'. *)
+Inductive Matches : list token -> bytes -> nat -> list bytes -> Prop :=
+| M_nil : Matches [] [] 0 []
+| M_static c ts s h vals :
+    c <> "{" -> c <> "*" ->
+    Matches ts s (pred h) vals ->
+    Matches (TStatic c :: ts) (c :: s) h vals
+| M_param_path n ts v s vals :
+    v <> [] -> ~ In "/" v -> (s = [] \/ starts_with "/" s) ->
+    Matches ts s 0 vals ->
+    Matches (TParam n :: ts) (v ++ s) 0 (v :: vals)
+| M_param_host n ts v s h vals :
+    h <> 0 -> v <> [] -> ~ In "." v -> length v <= h ->
+    (length v = h \/ starts_with "." s) ->
+    Matches ts s (h - length v) vals ->
+    Matches (TParam n :: ts) (v ++ s) h (v :: vals)
+| M_catch n ts v s vals :
+    v <> [] ->
+    (s = [] \/ (starts_with "/" s /\ last v "/" <> "/" /\ hd "/" v <> "/")) ->
+    Matches ts s 0 vals ->
+    Matches (TCatch n :: ts) (v ++ s) 0 (v :: vals).
+
+(* ------------------------------------------------------------------ *)
+(* 2. The preference order                                             *)
+(* ------------------------------------------------------------------ *)
+
+(* what a match does at each token: static, parameter, catch-all of a given length *)
+Inductive choice := CStatic | CParam | CCatch (len : nat).
+
+Fixpoint trace (ts : list token) (vals : list bytes) : list choice :=
+  match ts with
+  | [] => []
+  | TStatic _ :: r => CStatic :: trace r vals
+  | TParam _ :: r => CParam :: trace r (tl vals)
+  | TCatch _ :: r => CCatch (length (hd [] vals)) :: trace r (tl vals)
+  end.
+
+Definition choice_lt (a b : choice) : Prop :=
+  match a, b with
+  | CStatic, CParam | CStatic, CCatch _ | CParam, CCatch _ => True
+  | CCatch i, CCatch j => i < j
+  | _, _ => False
+  end.
+
+(* lexicographic; only traces of the same length with the same strict prefix
+   are comparable (two matches of the same text always are) *)
+Inductive trace_le : list choice -> list choice -> Prop :=
+| tle_nil : trace_le [] []
+| tle_lt a b l m : choice_lt a b -> trace_le (a :: l) (b :: m)
+| tle_eq a l m : trace_le l m -> trace_le (a :: l) (a :: m).
+
+Definition NoMatch (cs : list cand) (s : bytes) (h : nat) : Prop :=
+  forall k vals, In k cs -> ~ Matches (toks k) s h vals.
+
+(* (k, vals) is a match among cs and no match among cs is preferred to it *)
+Definition Best (cs : list cand) (s : bytes) (h : nat) (k : cand) (vals : list bytes) : Prop :=
+  In k cs /\ Matches (toks k) s h vals /\
+  forall k' vals', In k' cs -> Matches (toks k') s h vals' ->
+    trace_le (trace (toks k) vals) (trace (toks k') vals').
+
+(* ------------------------------------------------------------------ *)
+(* 3. Lists, seg, adv_*, leaf                                          *)
+(* ------------------------------------------------------------------ *)
+
+Lemma firstn_app_len {A} (v s : list A) : firstn (length v) (v ++ s) = v.
+Proof. induction v as [|a v IH]; simpl; [destruct s; reflexivity|]. f_equal; exact IH. Qed.
+
+Lemma skipn_app_len {A} (v s : list A) : skipn (length v) (v ++ s) = s.
+Proof. induction v as [|a v IH]; simpl; auto. Qed.
+
+Lemma seg_app stop s : s = seg stop s ++ skipn (length (seg stop s)) s.
+Proof.
+  induction s as [|c r IH]; simpl; [reflexivity|].
+  destruct (stop c); simpl; [reflexivity|]. f_equal; exact IH.
+Qed.
+
+Lemma seg_in stop s x : In x (seg stop s) -> stop x = false.
+Proof.
+  induction s as [|c r IH]; simpl; [tauto|].
+  destruct (stop c) eqn:E; simpl; [tauto|]. intros [<-|H]; auto.
+Qed.
+
+Lemma seg_next stop s :
+  skipn (length (seg stop s)) s = [] \/
+  exists c r, skipn (length (seg stop s)) s = c :: r /\ stop c = true.
+Proof.
+  induction s as [|c r IH]; simpl; [left; reflexivity|].
+  destruct (stop c) eqn:E; simpl; [right; eauto|]. exact IH.
+Qed.
+
+Lemma seg_length stop s : length (seg stop s) <= length s.
+Proof. induction s as [|c r IH]; simpl; [lia|]. destruct (stop c); simpl; lia. Qed.
+
+Lemma seg_unique stop v r :
+  (forall x, In x v -> stop x = false) ->
+  (r = [] \/ exists c r', r = c :: r' /\ stop c = true) ->
+  seg stop (v ++ r) = v.
+Proof.
+  intros Hv Hr. induction v as [|a v IH]; simpl.
+  - destruct Hr as [->|(c & r' & -> & Hc)]; simpl; [reflexivity|]. rewrite Hc; reflexivity.
+  - rewrite (Hv a) by (left; reflexivity). f_equal. apply IH. intros x Hx; apply Hv; right; exact Hx.
+Qed.
+
+(* the value a parameter takes at (h, s): executable form *)
+Definition pval (h : nat) (s : bytes) : bytes :=
+  if negb (Nat.eqb h 0) then seg (fun x => Ascii.eqb x ".") (firstn h s)
+  else seg (fun x => Ascii.eqb x "/") s.
+
+Lemma pval_length h s : length (pval h s) <= length s.
+Proof.
+  unfold pval. destruct (negb (Nat.eqb h 0)).
+  - etransitivity; [apply seg_length|]. rewrite firstn_length; lia.
+  - apply seg_length.
+Qed.
+
+Lemma pval_length_h h s : h <> 0 -> length (pval h s) <= h.
+Proof.
+  intros Hh. unfold pval. destruct (Nat.eqb_spec h 0); [contradiction|]. cbn [negb].
+  etransitivity; [apply seg_length|]. rewrite firstn_length; lia.
+Qed.
+
+Lemma adv_static_in c cs k' :
+  In k' (adv_static c cs) <->
+  exists k, In k cs /\ toks k = TStatic c :: toks k' /\ pat k = pat k'.
+Proof.
+  unfold adv_static. rewrite in_flat_map. split.
+  - intros (k & Hk & Hin). exists k. destruct (toks k) as [|[d|n|n] t]; simpl in Hin; try tauto.
+    destruct (Ascii.eqb_spec c d) as [->|]; simpl in Hin; [|tauto].
+    destruct Hin as [<-|[]]; simpl; auto.
+  - intros (k & Hk & Ht & Hp). exists k. split; [exact Hk|]. rewrite Ht, Ascii.eqb_refl.
+    left. destruct k'; simpl in *; congruence.
+Qed.
+
+Lemma adv_param_in cs k' :
+  In k' (adv_param cs) <->
+  exists k n, In k cs /\ toks k = TParam n :: toks k' /\ pat k = pat k'.
+Proof.
+  unfold adv_param. rewrite in_flat_map. split.
+  - intros (k & Hk & Hin). exists k. destruct (toks k) as [|[d|n|n] t]; simpl in Hin; try tauto.
+    exists n. destruct Hin as [<-|[]]; simpl; auto.
+  - intros (k & n & Hk & Ht & Hp). exists k. split; [exact Hk|]. rewrite Ht.
+    left. destruct k'; simpl in *; congruence.
+Qed.
+
+Lemma adv_catch_in cs k' :
+  In k' (adv_catch cs) <->
+  exists k n, In k cs /\ toks k = TCatch n :: toks k' /\ pat k = pat k'.
+Proof.
+  unfold adv_catch. rewrite in_flat_map. split.
+  - intros (k & Hk & Hin). exists k. destruct (toks k) as [|[d|n|n] t]; simpl in Hin; try tauto.
+    exists n. destruct Hin as [<-|[]]; simpl; auto.
+  - intros (k & n & Hk & Ht & Hp). exists k. split; [exact Hk|]. rewrite Ht.
+    left. destruct k'; simpl in *; congruence.
+Qed.
+
+Lemma leaf_some cs p : leaf cs = Some p -> exists k, In k cs /\ toks k = [] /\ pat k = p.
+Proof.
+  unfold leaf. destruct (filter _ cs) as [|k r] eqn:E; [discriminate|]. intros [= <-].
+  assert (In k (filter (fun k => match toks k with [] => true | _ => false end) cs)) as H
+    by (rewrite E; left; reflexivity).
+  apply filter_In in H. destruct H as [H1 H2]. exists k. destruct (toks k); [auto|discriminate].
+Qed.
+
+Lemma leaf_none cs : leaf cs = None -> forall k, In k cs -> toks k <> [].
+Proof.
+  unfold leaf. destruct (filter _ cs) as [|k0 r] eqn:E; [|discriminate]. intros _ k Hk Ht.
+  assert (In k (filter (fun k => match toks k with [] => true | _ => false end) cs)) as H
+    by (apply filter_In; rewrite Ht; auto).
+  rewrite E in H. exact H.
+Qed.
+
+Lemma try_splits_none {A} (f : bytes -> bytes -> option A) s :
+  (forall v r, f v r = None) -> forall k i, try_splits k i s f = None.
+Proof.
+  intros Hf. induction k as [|k IH]; intros i; simpl; [reflexivity|].
+  rewrite Hf. destruct (split_ok s i); simpl; apply IH.
+Qed.
+
+Lemma select_nil fuel : forall s h acc, select fuel [] s h acc = None.
+Proof.
+  induction fuel as [|fuel IH]; intros s h acc; [reflexivity|].
+  destruct s as [|c r]; [reflexivity|]. cbn [select adv_static adv_param adv_catch flat_map].
+  destruct (Ascii.eqb c "{" || Ascii.eqb c "*"); destruct (negb (Nat.eqb h 0)); reflexivity.
+Qed.
+
+(* one step of [select], with the "no candidate left" shortcuts removed *)
+Lemma select_unfold fuel cs c r h acc :
+  select (S fuel) cs (c :: r) h acc =
+  orelse (if Ascii.eqb c "{" || Ascii.eqb c "*" then None
+          else select fuel (adv_static c cs) r (pred h) acc)
+  (fun _ =>
+  orelse (match pval h (c :: r) with
+          | [] => None
+          | _ => select fuel (adv_param cs) (skipn (length (pval h (c :: r))) (c :: r))
+                        (h - length (pval h (c :: r))) (pval h (c :: r) :: acc)
+          end)
+  (fun _ =>
+     if negb (Nat.eqb h 0) then None
+     else try_splits (length (c :: r)) 1 (c :: r)
+            (fun v rest => select fuel (adv_catch cs) rest 0 (v :: acc)))).
+Proof.
+  cbn [select]. fold (pval h (c :: r)).
+  destruct (adv_static c cs) eqn:E1; destruct (adv_param cs) eqn:E2; destruct (adv_catch cs) eqn:E3;
+    rewrite ?select_nil; rewrite ?try_splits_none by (intros; apply select_nil);
+    destruct (pval h (c :: r)); reflexivity.
+Qed.
+
+(* ------------------------------------------------------------------ *)
+(* 4. Facts about Matches (the property's own words)                   *)
+(* ------------------------------------------------------------------ *)
+
+Lemma Matches_h_le ts s h vals : Matches ts s h vals -> h <= length s.
+Proof.
+  induction 1; simpl in *; try rewrite app_length; lia.
+Qed.
+
+Lemma Matches_nil_inv ts h vals : Matches ts [] h vals -> ts = [] /\ vals = [] /\ h = 0.
+Proof.
+  intros H. remember [] as s eqn:Es. destruct H; try discriminate; auto;
+  apply app_eq_nil in Es; destruct Es; contradiction.
+Qed.
+
+(* one captured value per wildcard of the pattern *)
+Lemma Matches_length ts s h vals :
+  Matches ts s h vals -> length vals = length (wildcard_names ts).
+Proof. induction 1; simpl; auto. Qed.
+
+(* substituting the captured values into the pattern reproduces the request text *)
+Lemma Matches_subst ts s h vals : Matches ts s h vals -> subst ts vals = s.
+Proof. induction 1; simpl; congruence. Qed.
+
+Definition is_wild (t : token) : bool := match t with TStatic _ => false | _ => true end.
+Definition wilds (ts : list token) : list token := filter is_wild ts.
+
+(* path part: a parameter value is one non-empty segment part (no '/'), a
+   catch-all value is non-empty *)
+Definition path_val_ok (w : token) (v : bytes) : Prop :=
+  v <> [] /\ match w with TParam _ => ~ In "/" v | _ => True end.
+
+Lemma Matches_path_values ts s vals :
+  Matches ts s 0 vals -> Forall2 path_val_ok (wilds ts) vals.
+Proof.
+  intros H. remember 0 as h eqn:Eh. induction H; subst; simpl; try constructor; auto;
+  try (split; auto); try contradiction.
+Qed.
+
+(* host part: only parameters, each one non-empty label part (no '.') *)
+Definition host_val_ok (v : bytes) : Prop := v <> [] /\ ~ In "." v.
+Definition no_catch (ts : list token) : Prop := forall n, ~ In (TCatch n) ts.
+
+Lemma Matches_host_values ts s h vals :
+  Matches ts s h vals -> h = length s -> no_catch ts /\ Forall host_val_ok vals.
+Proof.
+  induction 1; intros Eh.
+  - split; [intros n []|constructor].
+  - simpl in Eh. destruct IHMatches as [IH1 IH2]; [lia|]. split; [|exact IH2].
+    intros n0 [Hx|Hx]; [discriminate|]. exact (IH1 n0 Hx).
+  - rewrite app_length in Eh. destruct v; [contradiction|simpl in Eh; lia].
+  - rewrite app_length in Eh. destruct IHMatches as [IH1 IH2]; [lia|]. split.
+    + intros n0 [Hx|Hx]; [discriminate|]. exact (IH1 n0 Hx).
+    + constructor; [split; auto|exact IH2].
+  - rewrite app_length in Eh. destruct v; [contradiction|simpl in Eh; lia].
+Qed.
+
+(* every match splits at the host/path boundary: the first tokens consume the
+   WHOLE host, the remaining ones the path *)
+Lemma Matches_host_split ts s h vals :
+  Matches ts s h vals ->
+  exists ts1 ts2 vals1 vals2,
+    ts = ts1 ++ ts2 /\ vals = vals1 ++ vals2 /\
+    Matches ts1 (firstn h s) h vals1 /\ Matches ts2 (skipn h s) 0 vals2.
+Proof.
+  induction 1.
+  - exists [], [], [], []. repeat split; constructor.
+  - destruct h as [|h].
+    + exists [], (TStatic c :: ts), [], vals. repeat split; try constructor; auto.
+    + destruct IHMatches as (ts1 & ts2 & v1 & v2 & -> & -> & Ha & Hb). simpl in *.
+      exists (TStatic c :: ts1), ts2, v1, v2. repeat split; auto. constructor; auto.
+  - exists [], (TParam n :: ts), [], (v :: vals). repeat split; try constructor; auto.
+  - destruct IHMatches as (ts1 & ts2 & v1 & v2 & -> & -> & Ha & Hb).
+    exists (TParam n :: ts1), ts2, (v :: v1), v2.
+    assert (Hf : firstn h (v ++ s) = v ++ firstn (h - length v) s).
+    { rewrite firstn_app. f_equal. apply firstn_all2; lia. }
+    assert (Hs : skipn h (v ++ s) = skipn (h - length v) s).
+    { rewrite skipn_app. rewrite skipn_all2 by lia. reflexivity. }
+    rewrite Hf, Hs. repeat split; auto. constructor; auto.
+    destruct H3 as [H3|(r & ->)].
+    + left; exact H3.
+    + destruct (h - length v) as [|d] eqn:Ed; [left; lia|right; simpl; eexists; reflexivity].
+  - exists [], (TCatch n :: ts), [], (v :: vals). repeat split; try constructor; auto.
+Qed.
+
+(* ------------------------------------------------------------------ *)
+(* 5. Matches in the vocabulary of [select] (intro / inversion)        *)
+(* ------------------------------------------------------------------ *)
+
+Lemma Matches_cons_nonempty t ts s h vals : Matches (t :: ts) s h vals -> s <> [].
+Proof.
+  intros H Hs. subst. apply Matches_nil_inv in H. destruct H; discriminate.
+Qed.
+
+Lemma Matches_param_intro n t s h vals' :
+  h <= length s -> pval h s <> [] ->
+  Matches t (skipn (length (pval h s)) s) (h - length (pval h s)) vals' ->
+  Matches (TParam n :: t) s h (pval h s :: vals').
+Proof.
+  intros Hh Hv HM. unfold pval in *. destruct (Nat.eqb_spec h 0) as [->|Hn]; cbn [negb] in *.
+  - set (st := fun x => Ascii.eqb x "/") in *.
+    rewrite (seg_app st s) at 1. simpl in HM.
+    apply M_param_path; auto.
+    + intros Hin. apply seg_in in Hin. discriminate.
+    + destruct (seg_next st s) as [E|(c & r & E & Hc)]; [left; exact E|right].
+      unfold st in Hc. apply Ascii.eqb_eq in Hc. subst c. exists r; exact E.
+  - set (st := fun x => Ascii.eqb x ".") in *.
+    set (v := seg st (firstn h s)) in *.
+    assert (Hlen : length v <= h).
+    { etransitivity; [apply seg_length|]. rewrite firstn_length; lia. }
+    assert (Es : s = v ++ skipn (length v) s).
+    { rewrite <- (firstn_skipn h s) at 1. rewrite (seg_app st (firstn h s)) at 1. fold v.
+      rewrite <- app_assoc. f_equal.
+      rewrite <- (firstn_skipn h s) at 3. rewrite skipn_app.
+      rewrite firstn_length. replace (length v - Nat.min h (length s)) with 0 by lia.
+      reflexivity. }
+    rewrite Es at 1. apply M_param_host; auto.
+    + intros Hin. apply seg_in in Hin. discriminate.
+    + destruct (seg_next st (firstn h s)) as [E|(c & r & E & Hc)]; fold v in E.
+      * left. apply (f_equal (@List.length ascii)) in E. rewrite skipn_length, firstn_length in E.
+        simpl in E. lia.
+      * right. unfold st in Hc. apply Ascii.eqb_eq in Hc. subst c.
+        rewrite <- (firstn_skipn h s) at 1. rewrite skipn_app, E. eexists; reflexivity.
+Qed.
+
+Lemma split_ok_intro v s0 :
+  v <> [] ->
+  (s0 = [] \/ (starts_with "/" s0 /\ last v "/" <> "/" /\ hd "/" v <> "/")) ->
+  split_ok (v ++ s0) (length v) = true.
+Proof.
+  intros Hv H. unfold split_ok. rewrite skipn_app_len, firstn_app_len.
+  destruct H as [->|((r & ->) & Hl & Hh)]; [reflexivity|].
+  destruct v as [|a v]; [contradiction|]. simpl in Hh. cbn [app hd].
+  apply Ascii.eqb_neq in Hl, Hh. rewrite Hl, Hh. reflexivity.
+Qed.
+
+Lemma Matches_catch_intro n t s j vals' :
+  1 <= j <= length s -> split_ok s j = true ->
+  Matches t (skipn j s) 0 vals' ->
+  Matches (TCatch n :: t) s 0 (firstn j s :: vals').
+Proof.
+  intros Hj Hok HM. rewrite <- (firstn_skipn j s) at 1.
+  unfold split_ok in Hok.
+  assert (Hv : firstn j s <> []).
+  { destruct s; [simpl in Hj; lia|]. destruct j; [lia|]. discriminate. }
+  apply M_catch; auto.
+  destruct (skipn j s) as [|d rest]; [left; reflexivity|right].
+  destruct (Ascii.eqb_spec d "/") as [->|Hd].
+  2:{ destruct d as [[] [] [] [] [] [] [] []]; try discriminate; contradiction Hd; reflexivity. }
+  apply andb_true_iff in Hok. destruct Hok as [H1 H2].
+  apply negb_true_iff, Ascii.eqb_neq in H1, H2.
+  split; [eexists; reflexivity|]. split; [exact H1|].
+  destruct s; [simpl in Hj; lia|]. destruct j; [lia|]. exact H2.
+Qed.
+
+Lemma Matches_inv ts s h vals : Matches ts s h vals -> s <> [] ->
+  (exists c t r, ts = TStatic c :: t /\ s = c :: r /\ c <> "{" /\ c <> "*" /\
+                 Matches t r (pred h) vals)
+  \/ (exists n t vals', ts = TParam n :: t /\ vals = pval h s :: vals' /\ pval h s <> [] /\
+        Matches t (skipn (length (pval h s)) s) (h - length (pval h s)) vals')
+  \/ (exists n t j vals', ts = TCatch n :: t /\ h = 0 /\ vals = firstn j s :: vals' /\
+        1 <= j <= length s /\ split_ok s j = true /\ Matches t (skipn j s) 0 vals').
+Proof.
+  destruct 1; intros Hne.
+  - contradiction.
+  - left. exists c, ts, s. auto.
+  - right; left. exists n, ts, vals.
+    assert (E : pval 0 (v ++ s) = v).
+    { unfold pval. simpl. apply seg_unique.
+      - intros x Hx. apply Ascii.eqb_neq. intros ->. contradiction.
+      - destruct H1 as [->|(r & ->)]; [left; reflexivity|right; eauto]. }
+    rewrite E, skipn_app_len. auto.
+  - right; left. exists n, ts, vals.
+    assert (E : pval h (v ++ s) = v).
+    { unfold pval. destruct (Nat.eqb_spec h 0); [contradiction|]. cbn [negb].
+      rewrite firstn_app, (firstn_all2 v) by lia. apply seg_unique.
+      - intros x Hx. apply Ascii.eqb_neq. intros ->. contradiction.
+      - destruct H4 as [H4|(r & ->)].
+        + left. replace (h - length v) with 0 by lia. reflexivity.
+        + destruct (h - length v); [left; reflexivity|right; simpl; eauto]. }
+    rewrite E, skipn_app_len. auto.
+  - right; right. exists n, ts, (length v), vals.
+    rewrite firstn_app_len, skipn_app_len. repeat split; auto.
+    + destruct v; [contradiction|simpl; lia].
+    + rewrite app_length; lia.
+    + apply split_ok_intro; auto.
+Qed.
